@@ -369,6 +369,49 @@ Section Framework.
   Qed.
 
 
+
+  (* a guard body may also be sound only as a whole (the members of the group need not be sound one by one:
+     set_char in mirror mode on the centre column records the same old cell twice) *)
+  Definition edit_joint (e e' : es) : Prop :=
+    exists ops, ustk e' = ops ++ ustk e /\ Undoable (Atomic (rev ops)) (cur e) (cur e') /\
+                (rstk e' = [] \/ (ops = [] /\ rstk e' = rstk e)).
+
+  Lemma edit_chain_joint e e' : edit_chain e e' -> edit_joint e e'.
+  Proof. intros (ops & HU & HC & HR). exists ops. split; [exact HU|]. split; [apply atomic_Undoable; exact HC|exact HR]. Qed.
+
+  Lemma Undoable_atomic_nil a b : Undoable (Atomic []) a b -> eqv a b.
+  Proof.
+    intro H. destruct (Undoable_step _ _ _ H b (eqv_refl b)) as (o' & t' & E & Ea & _).
+    rewrite f_undo_atomic in E. cbn in E. injection E as _ <-. apply eqv_sym. exact Ea.
+  Qed.
+
+  Lemma end_guard_joint e e2 : edit_joint e e2 -> edit_chain e (end_guard (length (ustk e)) e2).
+  Proof.
+    intros (ops & HU & HJ & HR). unfold end_guard, guard_keeps. rewrite HU, app_length.
+    destruct ops as [|o ops].
+    - cbn [length Nat.add]. rewrite Nat.leb_refl. exists []. cbn [app rev UChain]. split; [exact HU|].
+      split; [apply Undoable_atomic_nil; exact HJ|exact HR].
+    - replace (length (o :: ops) + length (ustk e) <=? length (ustk e))%nat with false
+        by (symmetry; apply Nat.leb_gt; cbn; lia).
+      replace (length (o :: ops) + length (ustk e) - length (ustk e))%nat with (length (o :: ops)) by lia.
+      rewrite firstn_app, Nat.sub_diag, firstn_all, firstn_O, app_nil_r.
+      rewrite skipn_app, Nat.sub_diag, skipn_all, skipn_O. cbn [app].
+      exists [Atomic (rev (o :: ops))]. cbn [app rev cur ustk rstk]. split; [reflexivity|]. split.
+      + exists (cur e2). split; [exact HJ|apply eqv_refl].
+      + destruct HR as [HR|[HR _]]; [auto|discriminate].
+  Qed.
+
+  Lemma with_guard_joint (body : es -> res es) e e' :
+    (forall e2, body (mkEs (cur e) (ustk e) []) = Ok e2 -> edit_joint (mkEs (cur e) (ustk e) []) e2) ->
+    with_guard body e = Ok e' -> edit_chain e e'.
+  Proof.
+    intros Hb. unfold with_guard. cbn [begin_guard].
+    destruct (body (mkEs (cur e) (ustk e) [])) as [e2| |] eqn:E; cbn [bind]; [|discriminate|discriminate].
+    intro H. injection H as <-. specialize (Hb e2 eq_refl).
+    eapply edit_chain_trans; [apply (begin_guard_chain e)|]. cbn [begin_guard snd].
+    apply (end_guard_joint (mkEs (cur e) (ustk e) []) e2 Hb).
+  Qed.
+
   Lemma end_guard_length (e e2 : es) : edit_chain e e2 ->
     (length (ustk (end_guard (length (ustk e)) e2)) <= S (length (ustk e)))%nat.
   Proof.
